@@ -532,6 +532,35 @@ def _drain(it):
         out.append(x.fields[0])
 
 
+def _slice_iter(m, a, d):
+    x = a[0]
+    if isinstance(x, Bytes) and x.exact is not None:
+        return OnceIter([x.known.get(i, Opaque("byte[%d]" % i)) for i in range(x.exact)])
+    if isinstance(x, list):
+        return OnceIter(list(x))
+    return Opaque("iter")
+
+
+def _take(m, a, d):
+    it, n = a[0], a[1]
+    if isinstance(it, OnceIter) and isinstance(n, int):
+        return OnceIter(_drain(it)[:n])
+    return Opaque("take")
+
+
+def _enumerate(m, a, d):
+    it = a[0]
+    if isinstance(it, OnceIter):
+        return OnceIter([(i, x) for i, x in enumerate(_drain(it))])
+    return Opaque("enumerate")
+
+
+def _sat_sub(m, a, d):
+    if isinstance(a[0], int) and isinstance(a[1], int):
+        return max(a[0] - a[1], 0)
+    return Opaque("saturating_sub")
+
+
 def _filter(m, a, d):
     it, clo = a[0], a[1]
     if not isinstance(it, OnceIter):
@@ -643,6 +672,20 @@ def _index(m, a, d):
         if x.exact is not None and (i.fields[1] > x.exact or i.fields[0] > i.fields[1]):
             raise Unsupported("the modelled input panics: range %d..%d of a slice of length %d" % (i.fields[0], i.fields[1], x.exact))
         return r
+    if isinstance(x, Bytes) and isinstance(i, Adt) and i.name.endswith("RangeFrom") and len(i.fields) == 1 and isinstance(i.fields[0], int):
+        st = i.fields[0]
+        if x.exact is not None and st > x.exact:
+            raise Unsupported("the modelled input panics: range %d.. of a slice of length %d" % (st, x.exact))
+        r = Bytes({k - st: v for k, v in x.known.items() if k >= st}, minlen=max(x.minlen - st, 0), tag=x.tag + "[..]", exact=(x.exact - st) if x.exact is not None else None)
+        r.range = (st, x.exact)
+        return r
+    if isinstance(x, Bytes) and isinstance(i, Adt) and i.name.endswith("RangeTo") and len(i.fields) == 1 and isinstance(i.fields[0], int):
+        en = i.fields[0]
+        if x.exact is not None and en > x.exact:
+            raise Unsupported("the modelled input panics: range ..%d of a slice of length %d" % (en, x.exact))
+        r = Bytes({k: v for k, v in x.known.items() if k < en}, minlen=en, tag=x.tag + "[..]", exact=en)
+        r.range = (0, en)
+        return r
     if isinstance(x, Bytes) and isinstance(i, int):
         return x.known.get(i, Opaque("byte[%d]" % i))
     return Opaque("index")
@@ -699,7 +742,8 @@ MODELS = {
     "core::slice::len": _len,
     "std::ops::RangeInclusive::new": _range_new, "std::ops::RangeInclusive::contains": _range_contains, "std::ops::Range::contains": _range_contains,
     "std::iter::Iterator::any": _any, "std::iter::Iterator::all": _all, "std::iter::Iterator::filter": _filter, "std::iter::Iterator::map": _map,
-    "std::iter::Iterator::find": _find,
+    "std::iter::Iterator::find": _find, "core::slice::iter": _slice_iter, "std::iter::Iterator::take": _take, "std::iter::Iterator::enumerate": _enumerate,
+    "core::num::saturating_sub": _sat_sub,
     "<I as std::iter::IntoIterator>::into_iter": _ident, "std::iter::IntoIterator::into_iter": _ident,
     "std::option::Option::unwrap_or": _unwrap_or, "std::result::Result::unwrap_or": _unwrap_or, "std::option::Option::is_some": _is_some, "std::option::Option::is_none": _is_none,
     "std::slice::to_vec": _to_vec, "alloc::slice::to_vec": _to_vec, "core::slice::to_vec": _to_vec, "std::borrow::ToOwned::to_owned": _to_vec,
